@@ -121,6 +121,7 @@ type PkgSpec struct {
 	FieldTags    []*CallersRule // "fieldtag T.f KEY VALUE"
 	InitValues   []*CallersRule // "initvalues VAR all|some RE": Callee = VAR, Allowed = {mode, re}
 	StoredFields []*CallersRule // "storedfields T1, T2": Allowed holds the type names
+	NeverAssigned []*CallersRule // "neverassigned T.f, T.g": Allowed holds the fields
 	Axioms    []*FuncSpec
 }
 
@@ -320,6 +321,16 @@ func parseSpecFile(path string, ps *PkgSpec, trustedFile bool) error {
 				ts = append(ts, strings.TrimSpace(a))
 			}
 			ps.StoredFields = append(ps.StoredFields, &CallersRule{Allowed: ts, Label: label, Tags: tags, File: path, Line: ln})
+			cur = nil
+		case strings.HasPrefix(t, "neverassigned "):
+			// neverassigned T.f, T.g #label @tags   no function of /repo stores to the named fields (they are set by
+			// the configuration parser, through reflection, and by nothing else)
+			text, label, tags := splitLabelTags(" " + strings.TrimPrefix(t, "neverassigned "))
+			var ts []string
+			for _, a := range strings.Split(text, ",") {
+				ts = append(ts, strings.TrimSpace(a))
+			}
+			ps.NeverAssigned = append(ps.NeverAssigned, &CallersRule{Allowed: ts, Label: label, Tags: tags, File: path, Line: ln})
 			cur = nil
 		case strings.HasPrefix(t, "nonblocking "):
 			// nonblocking F1, F2 #label @tags   the functions (and what they call inside /repo) never block on a channel
